@@ -147,9 +147,12 @@ class gather(core.Stream):
         previous, turn = self._turn, Future()
         self._turn = turn
         try:
-            result = yield client.gather(x, asynchronous=True)
-            if previous is not None:
-                yield previous
+            try:
+                result = yield client.gather(x, asynchronous=True)
+            finally:
+                # (also if the task failed: the turn is passed on in order)
+                if previous is not None:
+                    yield previous
             result2 = yield self._emit(result, metadata=metadata)
         finally:
             turn.set_result(None)
